@@ -424,6 +424,15 @@ func FuzzVerifC15Pack(f *testing.F) {
 		}
 		twin := m.Copy()
 		witness := m.Copy()
+		if !reflect.DeepEqual(m, witness) {
+			// the library's Copy does not always reproduce nil-vs-empty slices; judge side effects on a copy that is
+			// DeepEqual to its own copy
+			m = m.Copy()
+			witness = m.Copy()
+			if !reflect.DeepEqual(m, witness) {
+				return
+			}
+		}
 		want, wantErr, libPanic := vfC15LibPack(twin)
 		var got []byte
 		handled, err := TryPack(m, func(b []byte) error {
